@@ -171,9 +171,12 @@ def run(rep, wd, tier, seed):
             if bit1:
                 bm[0] |= 0x80
             bm[(bit - 1) // 8] |= 1 << (7 - (bit - 1) % 8)
-            data = struct.pack('>I', 40) + b'1240' + bytes(bm) + b'0' * 60
-            traces.append(trace(len(traces), data, False, False, 'ascii', 'first bitmap uses unconfigured bit %d%s' %
-                                (bit, '' if bit1 else ' (bit 1 off)')))
+            # the message type in front of that bitmap: digits in either family, and bytes that are digits in neither
+            mtis = (b'1240', b'\xf1\xf2\xf4\xf0', b'@@@@', b'\x00\x00\x00\x00', b'ABCD', b'\xff\xfe\xfd\xfc', b'12\xb240', b'    ')
+            for mti in (mtis if bit in (7, 65, 128, 47) else (mtis[0], mtis[1 + bit % 7])):
+                data = struct.pack('>I', 40) + mti + bytes(bm) + b'0' * 60
+                traces.append(trace(len(traces), data, False, False, 'ascii', 'first bitmap uses unconfigured bit %d%s, message type %r' %
+                                    (bit, '' if bit1 else ' (bit 1 off)', mti)))
     # the configuration is changed at run time AFTER inspections have been made: element 7 configured, element 127 removed
     from cardutil import config as cfgmod
     saved = cfgmod.config['bit_config']
